@@ -22,8 +22,19 @@ for m in a.mutants: q.put(os.path.abspath(m))
 lock = threading.Lock()
 results = []
 
+import signal
+class R:
+    def __init__(s, rc, out, err): s.returncode, s.stdout, s.stderr = rc, out, err
 def sh(cmd, cwd=None, env=None, timeout=None):
-    return subprocess.run(cmd, shell=True, cwd=cwd, env=env, capture_output=True, text=True, timeout=timeout)
+    p = subprocess.Popen(cmd, shell=True, cwd=cwd, env=env, stdout=subprocess.PIPE, stderr=subprocess.PIPE, text=True, start_new_session=True)
+    try:
+        out, err = p.communicate(timeout=timeout)
+        return R(p.returncode, out, err)
+    except subprocess.TimeoutExpired:
+        try: os.killpg(p.pid, signal.SIGKILL)
+        except Exception: pass
+        p.communicate()
+        raise
 
 def worker(i):
     lab = f'{root}/w{i}'
@@ -48,9 +59,13 @@ def worker(i):
                 for p in props: results.append((name, p, 'apply-failed', r.stderr.strip()[:100])); print(name, p, 'apply-failed', flush=True)
             continue
         if a.baseline:
-            t = sh('cargo test --workspace --no-fail-fast --offline 2>&1 | grep -E "^test result" ', cwd=f'{lab}/repo', env=env)
-            ok = t.stdout.count('test result: ok') >= 4 and 'FAILED' not in t.stdout
-            with lock: results.append((name, 'BASELINE', 'pass' if ok else 'FAIL', '')); print(name, 'BASELINE', 'pass' if ok else 'FAIL', flush=True)
+            try:
+                t = sh('cargo test --workspace --no-fail-fast --offline 2>&1 | grep -E "^test result" ', cwd=f'{lab}/repo', env=env, timeout=400)
+                ok = t.stdout.count('test result: ok') >= 4 and 'FAILED' not in t.stdout
+                verdict = 'pass' if ok else 'FAIL'
+            except subprocess.TimeoutExpired:
+                verdict = 'HANG'
+            with lock: results.append((name, 'BASELINE', verdict, '')); print(name, 'BASELINE', verdict, flush=True)
         b = sh('cargo build --release --offline', cwd=f'{lab}/harness', env=env)
         if b.returncode != 0:
             with lock:
@@ -59,7 +74,7 @@ def worker(i):
             for p in props:
                 t0 = time.time()
                 try:
-                    r = sh(f'{lab}/harness/target/release/pv check {p} {a.t}', cwd=lab, env=env, timeout=3600)
+                    r = sh(f'{lab}/harness/target/release/pv check {p} {a.t}', cwd=lab, env=env, timeout=600)
                     rc = r.returncode
                     reason = ''
                     for line in r.stdout.splitlines():
